@@ -117,6 +117,49 @@ def content_program(cls_name, N, obs_dim, extra_adds):
     return prog
 
 
+def inductive_program(cls_name, N):
+    """ONE add from an ARBITRARY reachable state (representation invariant assumed): histories of any length."""
+    from rl_blox.blox import replay_buffer as rb
+    from e2_pysym.npshim import SymArr
+
+    def prog(ctx):
+        with overlay(rb, np=NpShim(), jnp=JnpShim()):
+            buf = getattr(rb, cls_name)(N)
+            buf.add_sample(**sym_transition(0, 1))  # allocates the storage
+            # arbitrary contents, arbitrary cursor / length satisfying the representation invariant
+            pre = {}
+            for k in FIELDS:
+                shape = buf.buffer[k].shape
+                arr = np.empty(shape, dtype=object)
+                for idx in np.ndindex(*shape):
+                    arr[idx] = sym_bool(f"pre_{k}_{idx}") if k == "termination" else sym_real(f"pre_{k}_{'_'.join(map(str, idx))}")
+                buf.buffer[k] = SymArr(arr)
+                pre[k] = arr.copy()
+            idx0 = sym_int("insert_idx", 0, N - 1)
+            len0 = sym_int("current_len", 1, N)
+            ctx.assume((len0 == N) | (idx0 == len0))  # before the buffer is full the cursor equals the length
+            buf.insert_idx, buf.current_len = idx0, len0
+            tr = sym_transition(1, 1)
+            buf.add_sample(**tr)
+            i0, l0 = int(idx0), int(len0)
+            ctx.check(len(buf) == min(l0 + 1, N), "induction:length=min(n+1,N)")
+            ctx.check(int(buf.insert_idx) == (i0 + 1) % N, "induction:cursor-advances-cyclically")
+            ctx.check((int(buf.current_len) == N) or (int(buf.insert_idx) == int(buf.current_len)), "induction:representation-invariant-preserved")
+            for k in FIELDS:
+                for j in range(N):
+                    got = buf.buffer[k][j]
+                    want = tr[k] if j == i0 else pre[k][j]
+                    ctx.check(_eq(got, want), "induction:only-the-cursor-slot-is-overwritten,-with-the-whole-new-transition")
+            # logical FIFO content: k-th most recent transition lives in slot (cursor-1-k) mod N
+            l1, i1 = int(buf.current_len), int(buf.insert_idx)
+            for k in range(1, l1):
+                ctx.check((i1 - 1 - k) % N == (i0 - 1 - (k - 1)) % N and (i1 - 1 - k) % N != i0, "induction:older-transitions-shift-by-one-in-recency-order")
+            # the sampler's index range [0, current_len) is exactly the set of slots holding the logical content
+            live = {(i1 - 1 - k) % N for k in range(l1)}
+            ctx.check(live == set(range(l1)), "induction:sampler-range-equals-the-slots-of-the-most-recent-min(n,N)-transitions")
+    return prog
+
+
 def multitask_program(T, N, n_ops):
     from rl_blox.blox import replay_buffer as rb
 
@@ -168,7 +211,8 @@ def main(tier, seed):
     extra = 2 if tier == "quick" else 3
     rep.r.bounds = {"capacities": caps, "adds": f"symbolic n in [0, N+{extra}] (covers exact wrap-around and overwrite)", "batch_sizes": [1, 2] if tier == "quick" else [1, 3],
                     "observation_dims": [1, 2], "classes": ["ReplayBuffer", "LAP", "PrioritizedReplayBuffer", "MultiTaskReplayBuffer(T=2)"],
-                    "multitask_ops": 4 if tier == "quick" else 5}
+                    "multitask_ops": 4 if tier == "quick" else 5,
+                    "inductive_step": "one add_sample from an ARBITRARY state satisfying the representation invariant (symbolic cursor, length, contents): covers histories of any length for these capacities"}
     rep.r.assumptions = ["np.empty/asarray inside replay_buffer.py replaced by object-array allocators (poisoned slots); all other numpy semantics are numpy's own",
                          "jnp.asarray is the identity (device transfer not modelled)", "generator draws: arbitrary ints in [lo,hi) / reals in the open interval (0,1)",
                          "flags compared as 0/1 (documented storage dtype int); float->storage dtype rounding outside the claim"]
@@ -180,6 +224,9 @@ def main(tier, seed):
                 rep.run(f"{cls}[N={N},B={B}]:fifo", fifo_program(cls, N, od, B, extra), fn=f"{cls}.add_sample/sample_batch/__len__")
         for N in caps:
             rep.run(f"ReplayBuffer-content[{cls},N={N}]", content_program(cls, N, 1, extra), fn=f"{cls}.add_sample + storage") if cls == "ReplayBuffer" else None
+    for cls in ("ReplayBuffer", "LAP", "PrioritizedReplayBuffer"):
+        for N in caps:
+            rep.run(f"{cls}[N={N}]:inductive-step", inductive_program(cls, N), fn=f"{cls}.add_sample from an arbitrary invariant-satisfying state")
     rep.run("MultiTaskReplayBuffer[T=2,N=2]", multitask_program(2, 2, rep.r.bounds["multitask_ops"]), fn="MultiTaskReplayBuffer.select_task/add_sample/sample_batch")
     return rep.finish()
 
